@@ -251,10 +251,14 @@ def main():
         'coverage': cov, 'assumptions': list(getattr(mod, 'ASSUMPTIONS', [])),
         'wall_s': round(wall, 2), 'violations': confirmed_unknown,
     }
-    if not a.only:
-        os.makedirs(os.path.join(VERIF, 'evidence'), exist_ok=True)
-        with open(os.path.join(VERIF, 'evidence', pid + '.json'), 'w') as f:
-            json.dump(ev, f, indent=1, sort_keys=True, default=str)
+    evdir = os.path.join(VERIF, 'scratch' if a.only else 'evidence')
+    os.makedirs(evdir, exist_ok=True)
+    with open(os.path.join(evdir, pid + '.json'), 'w') as f:
+        json.dump(ev, f, indent=1, sort_keys=True, default=str)
+    os.makedirs(os.path.join(VERIF, 'scratch'), exist_ok=True)
+    with open(os.path.join(VERIF, 'scratch', pid + '.violations.json'), 'w') as f:
+        json.dump({s: {'what': v[1]['what'], 'case': v[1]['case'], 'count': agg.vcount[s]} for s, v in agg.violations.items()},
+                  f, indent=1, sort_keys=True, default=str)
     for l in lines:
         print(l)
     print('%s tier=%s seed=%d evaluations=%d nontrivial=%d outcomes=%d signatures=%d (known %d) wall=%.1fs exit=%d' % (
